@@ -159,11 +159,10 @@ def case_matrix(case):
     exhausted = False
     if spherical and case.get("exhaust", True):
         lv = br.levels(10 ** 6, cap=int(case.get("cap", 20000)))
-        total = sum(len(x) for x in lv)
-        if total <= int(case.get("cap", 20000)):
-            exhausted = True
+        if br.capped:
+            lv = br.levels(L)            # memoised: only re-reads the classes
         else:
-            lv = lv[:L + 1]
+            exhausted = True
     else:
         lv = br.levels(L)
         exhausted = len(lv) - 1 < L          # the level after the last one is empty: finite group, all seen
